@@ -29,6 +29,7 @@ def run(rep, prog, tier):
     r8(rep, prog)
     r9(rep, prog)
     r10(rep, prog)
+    r11(rep, prog)
     rep.rule("C02-R6", "an accepted batch is indexed completely: in index_documents the loop over one document group (the adds of one IndexWriter::run batch, already stamped and acknowledged) is left only when its iterator is exhausted or with an error; a `break` out of it on an Ok path drops acknowledged adds")
     rule_loop_exhausted(rep, prog, "C02-R6", I + "index_writer::index_documents", {I + "segment_writer::SegmentWriter::add_document"}, "the documents of one group")
 
@@ -60,6 +61,93 @@ def r8(rep, prog):
     rep.check(bool(on_commit), R, "IndexWriter::committed_opstamp is updated on the commit path", "written by %s" % [short(w) for w in on_commit],
               "the field IndexWriter::committed_opstamp is written only by %s and by nothing that commit reaches: after any number of successful commits `commit_opstamp()` still reports the commit that was "
               "current when the writer was created, and delete_all_documents() rewinds the opstamp generator to that stale value" % sorted(short(w) for w in writers), site=prog.bodies[entries[0]].span)
+
+
+def _slice_ops(body, local, limit=200):
+    """binary operators and callee names in the backward slice of `local` (all definitions followed)"""
+    ops, calls, seen, work = set(), set(), set(), [local]
+    defs = body.defs()
+    while work and len(seen) < limit:
+        l = work.pop()
+        if l in seen:
+            continue
+        seen.add(l)
+        for d in defs.get(l, []):
+            if d[0] == "call":
+                t = d[2]
+                calls.add(t.get("res") or t.get("f") or "")
+                for o in t.get("args", []):
+                    if op_local(o) is not None:
+                        work.append(op_local(o))
+            else:
+                st = d[3]
+                if st.get("r") == "bin":
+                    ops.add(st.get("op"))
+                if st.get("r") in ("ref", "rawptr", "discr") and "p" in st:
+                    work.append(place_local(st["p"]))
+                for o in st.get("o", []):
+                    if op_local(o) is not None:
+                        work.append(op_local(o))
+    return ops, calls
+
+
+def r11(rep, prog):
+    """an operation issued after commit N is never counted into commit N"""
+    R = "C02-R11"
+    rep.rule(R, "the opstamp convention is the same on both sides: a commit's opstamp N is itself a stamp drawn from the stamper (fetch_add returns the old value), so inside one writer the next operation gets N + 1. A writer that is re-opened (or rebuilt by rollback) seeds its stamper from meta.json's opstamp: if the seed is the bare N, its first operation is stamped N again — then the code that applies deletes 'up to a target opstamp' (compute_deleted_bitset, used for commits and for merges, whose target for committed segments is N) must treat the target as exclusive. Rule: either IndexWriter::new seeds Stamper::new with meta.opstamp plus something, or compute_deleted_bitset does not apply a delete whose opstamp equals the target. With both inclusive, `reopen; delete_term(a); merge` publishes the uncommitted delete and rollback cannot undo it")
+    nb = get_body(rep, prog, R, IW + "new")
+    cb = get_body(rep, prog, R, I + "index_writer::compute_deleted_bitset")
+    if nb is None or cb is None:
+        return
+    seeds = calls_to(prog, nb, {ST + "new"})
+    if not rep.check(len(seeds) == 1, R, "IndexWriter::new builds one stamper", "Stamper::new", "cannot establish: IndexWriter::new calls Stamper::new %d times" % len(seeds), site=nb.span):
+        return
+    sb, stt = seeds[0]
+    sl = op_local(stt["args"][0])
+    ops, calls = _slice_ops(nb, sl) if sl is not None else (set(), set())
+    from_meta = any(c.endswith("Index::load_metas") for c in calls)
+    bumped = bool(ops & {"Add", "AddWithOverflow", "AddUnchecked"}) or any(re.search(r"::(checked_add|saturating_add|wrapping_add)$", c) for c in calls)
+    rep.check(from_meta, R, "the stamper is seeded from meta.json", "load_metas().opstamp", "IndexWriter::new does not seed its stamper from the index meta: opstamps restart below committed ones", site=site(nb, sb))
+    # the comparison of compute_deleted_bitset
+    ADV = I + "delete_queue::DeleteCursor::advance"
+    advb = {bi for bi, t in cb.calls() if (t.get("res") or t.get("f")) == ADV}
+    verdict = None
+    where = None
+    for bi in cb.normal_blocks():
+        t = cb.term(bi)
+        if t["k"] != "switch" or op_local(t["on"]) is None:
+            continue
+        tr = trace_back(cb, op_local(t["on"]))
+        if not tr or tr[-1][0] != "bin" or tr[-1][1] not in ("Gt", "Ge", "Lt", "Le", "Eq", "Ne"):
+            continue
+        bst = cb.stmts(tr[-1][2])[tr[-1][3]]
+        provs = []
+        for o in bst.get("o", []):
+            l = op_local(o)
+            tb = trace_back(cb, l) if l is not None else []
+            provs.append(tb)
+        is_ops = lambda tb: any(x[0] == "field" and x[2] == "opstamp" for x in tb)
+        is_tgt = lambda tb: bool(tb) and tb[-1] == ("param", 5)
+        if not ((is_ops(provs[0]) and is_tgt(provs[1])) or (is_ops(provs[1]) and is_tgt(provs[0]))):
+            continue
+        cond_at_eq = tr[-1][1] in ("Ge", "Le", "Eq")
+        listed = {v: tg for v, tg in t["vals"]}
+        arm_true = listed.get("1", t.get("else") if "0" in listed else None)
+        arm_false = listed.get("0", t.get("else") if "1" in listed else None)
+        reach = lambda a: a is not None and bool(advb & (set(cb.reachable((a,), blocked=frozenset({bi}))) | {a}))
+        apply_true, apply_false = reach(arm_true), reach(arm_false)
+        if apply_true == apply_false:
+            continue
+        verdict = (cond_at_eq == apply_true)      # does a delete with opstamp == target get applied?
+        where = bi
+    if not rep.check(verdict is not None, R, "compute_deleted_bitset compares delete_op.opstamp with target_opstamp", "one comparison decides between applying the delete and leaving the loop",
+                     "cannot establish: no comparison between delete_op.opstamp and the target_opstamp parameter decides the loop of compute_deleted_bitset", site=cb.span):
+        return
+    rep.check(bumped or not verdict, R, "an operation stamped after commit N is not counted into N",
+              "seed = meta.opstamp%s; a delete with opstamp == target is %s" % (" + k" if bumped else " (bare)", "applied" if verdict else "not applied"),
+              "IndexWriter::new seeds the stamper with the bare meta.opstamp N (the stamp the last commit itself drew), so the first operation of a re-opened or rolled-back writer is stamped N again; and compute_deleted_bitset applies "
+              "every delete with opstamp <= target. A merge of committed segments (target = N) therefore bakes an UNCOMMITTED delete into the merged segment and end_merge publishes it in meta.json: a reader sees the "
+              "delete without any commit, and rollback() cannot bring the document back", site=site(cb, where))
 
 
 def r10(rep, prog):
